@@ -19,7 +19,8 @@ RULE = ("A value v is drawn from integers, dyadic fractions and generic decimals
         "end: ticc_labels with each form of lambda, beta and the covariance floor, same RNG seeds; every result field compared "
         "bitwise with the all-Python-float run. Non-trivial = at least 3 distinct forms compared and (for 1) NW>=2 with W>=2, so "
         "that classes have different occurrence counts; distinct by SHA-1 of the case."
-        ' A separate family uses NW 32..40 (matrices of >= 1024 entries) with weights float32 cannot hold.')
+        ' A separate family uses NW 32..40 (matrices of >= 1024 entries) with weights float32 cannot hold.'
+        ' Floors also 12, 16, 100, 200, 2**-14, 2**-10; weight forms also under a requested floor.')
 ASSUMPTIONS = ["'same numeric value' is enforced: a form is used only if converting v to it and back is exact",
                "bitwise comparison is between executions inside the same process and environment"]
 
@@ -182,8 +183,10 @@ def execute_relabel(case, t):
 @st.composite
 def floor_case(draw):
     return {"N": draw(st.integers(1, 3)), "W": draw(st.integers(1, 3)), "K": draw(st.integers(1, 3)),
-            "seed": draw(st.integers(0, 2 ** 32 - 1)), "v": draw(st.sampled_from([0.0, 1.0, 2.0, 3.0, 0.5, 0.125, 0.011, 0.11])),
-            "data_scale": draw(st.sampled_from([0.05, 0.1, 0.3]))}
+            "seed": draw(st.integers(0, 2 ** 32 - 1)),
+            # also floors whose square, double or negative leaves the range of the narrow types that hold the floor itself exactly
+            "v": draw(st.sampled_from([0.0, 1.0, 2.0, 3.0, 0.5, 0.125, 0.011, 0.11, 12.0, 16.0, 100.0, 200.0, 2.0 ** -14, 2.0 ** -10, 2.0 ** -8])),
+            "data_scale": draw(st.sampled_from([0.05, 0.1, 0.3, 10.0, 30.0, 100.0]))}
 
 
 def _fit_with_floor(case, eps):
@@ -238,6 +241,11 @@ def e2e_case(draw):
     cfg["param"] = draw(st.sampled_from(["lam", "beta", "eps"]))
     cfg["v"] = draw(st.sampled_from(VALUES if cfg["param"] != "eps" else [0.0, 1.0, 0.5, 0.125, 0.011, 0.11]))
     cfg["form_pick"] = draw(st.integers(0, 10 ** 6))
+    if cfg["param"] == "lam" and draw(st.booleans()):
+        # the other hyper-parameters are not at their defaults while the weight changes form: a floor is requested as well
+        cfg["eps"] = draw(st.sampled_from([1e-3, 0.01, 0.05, 0.2]))
+        cfg["v"] = draw(st.sampled_from([0.0, 0.0, 0.0, 0.11, 0.5]))
+        cfg["matrix_forms_only"] = True
     return cfg
 
 
@@ -324,5 +332,5 @@ SUBCHECKS = [
              budget={"quick": 12, "thorough": 240}, shards={"quick": 3, "thorough": 16}, modes={"quick": ["jit"], "thorough": ["jit"]},
              shrink={"quick": False, "thorough": False}),
     SubCheck(name="end_to_end_forms", strategy=e2e_case, execute=execute_e2e,
-             budget={"quick": 64, "thorough": 2000}, shards={"quick": 16, "thorough": 8}, modes=E2E_MODES),
+             budget={"quick": 96, "thorough": 2000}, shards={"quick": 16, "thorough": 8}, modes=E2E_MODES),
 ]
